@@ -61,7 +61,7 @@ def build_instance(case, oracle, order, probe="interior", opts=None, with_T=True
     import aurel.core as core
     N = 2 * order + 1
     h = SPACING[order] / refine
-    fd = fields.make_fd(N=N, order=order, h=h, boundary=boundary)
+    fd = fields.make_fd(N=N, order=order, h=h, boundary=boundary, aniso=(opts or {}).get("_aniso", (1.0, 1.0, 1.0)))
     idx = {"interior": (order, order, order), "corner": (0, 0, 0), "face": (0, order, order), "edge": (0, N - 1, order)}[probe]
     F = ST.Fields(case, fd, idx)
     # keep everything cached: an entry corrupted or mis-branched by an earlier request must stay visible to later ones
@@ -119,11 +119,14 @@ def compare_keys(job, refine=1):
         kin = (rel.data["Kdown3"] if "Kdown3" in rel.data else rel["Kdown3"])[(...,) + idx]
         if np.abs(kin - kref).max() > 1e-10 * max(1.0, np.abs(kref).max()):
             return [{"key": "*", "error": "harness K field disagrees with the oracle K at the probe (machinery)"}]
+    first = {}                  # what every cached key returned the first time, at the probe
     for p in (opts or {}).get("_pre", []):
         try:
-            rel[p]
+            first[p] = np.array(np.asarray(rel[p])[(...,) + idx], copy=True)
         except Exception:
             return []           # this pre-history is not computable on the probe grid (e.g. sphere extraction): variant skipped
+    if (opts or {}).get("_reversed"):
+        keys = list(reversed(keys))
     for kspec in keys:
         code_key, field, factor = kspec[:3]
         slicer = kspec[3] if len(kspec) > 3 else None
@@ -132,6 +135,8 @@ def compare_keys(job, refine=1):
             continue
         try:
             v = CALLS[code_key](rel, F) if code_key in CALLS else rel[code_key]
+            if code_key not in CALLS and code_key not in first and isinstance(v, np.ndarray):
+                first[code_key] = np.array(v[(...,) + idx], copy=True)
             got = np.asarray(v)[(...,) + idx] * factor
             if slicer == "ss":
                 got = got[1:, 1:]
@@ -151,6 +156,14 @@ def compare_keys(job, refine=1):
             out.append({"key": code_key, "component": [int(x) for x in i], "got": float(np.asarray(got)[i]) if np.ndim(err) else float(got),
                         "exact": str(oracle[field][int(np.ravel_multi_index(i, np.shape(ref)))] if np.ndim(err) else oracle[field][0]),
                         "maxerr": float(err.max()), "scale": scale, "nbad": nbad, "ncomp": int(np.size(ref))})
+    # final re-read: nothing that was returned (and is still cached) may have been changed by a later request
+    if refine == 1:
+        for k, v0 in first.items():
+            if k in rel.data:
+                v1 = np.asarray(rel[k])[(...,) + idx]
+                if np.shape(v1) != np.shape(v0) or not np.array_equal(v1, v0, equal_nan=True):
+                    out.append({"key": k, "error": "CachedValueChanged: the cached entry no longer is what this request returned the first time "
+                                                   f"(max abs change {float(np.nanmax(np.abs(v1 - v0))) if np.shape(v1) == np.shape(v0) else 'shape'})"})
     if out and refine == 1:
         bad_keys = [k for k in keys if k[0] in {m["key"] for m in out if "maxerr" in m}]
         if bad_keys:
